@@ -287,6 +287,13 @@ fn spa_rows(base: NaiveDate, deposits: &[(i16, u8)]) -> String {
     json!({"BrokerageTransactions": rows}).to_string()
 }
 
+/// the error "names the symbol and date" of a deposit row: whatever the error type, its text holds
+/// the symbol (any letter case) and the date in ISO, US or UK form
+fn error_names_row(msg: &str, sym: &str, d: NaiveDate) -> bool {
+    let m = msg.to_lowercase();
+    m.contains(&sym.to_lowercase()) && ["%Y-%m-%d", "%m/%d/%Y", "%d/%m/%Y"].iter().any(|f| m.contains(&d.format(f).to_string()))
+}
+
 pub fn check19(c: &Case19, obs: &mut Obs) -> Verdict {
     obs.hash = crate::led::hash_str(&format!("{c:?}"));
     let awards = awards_json(c.base, &c.entries);
@@ -309,14 +316,14 @@ pub fn check19(c: &Case19, obs: &mut Obs) -> Verdict {
         obs.class("no_awards_file");
         obs.nontrivial = true;
         return match res {
-            Err(ConvertError::MissingFairMarketValue { date, symbol }) => {
-                if c.deposits.iter().any(|(o, s)| date == (c.base + Duration::days(*o as i64)).to_string() && symbol.eq_ignore_ascii_case(sym_variant(*s))) {
+            Err(e) => {
+                let msg = e.to_string();
+                if c.deposits.iter().any(|(o, s)| error_names_row(&msg, sym_variant(*s), c.base + Duration::days(*o as i64))) {
                     Verdict::Pass
                 } else {
-                    Verdict::fail(format!("error names {symbol} {date}, not a deposit row (first is {} {first_date})", sym_variant(first.1)))
+                    Verdict::fail(format!("RSU rows without awards file: the error names no deposit row's symbol and date (first is {} {first_date}): {msg}", sym_variant(first.1)))
                 }
             }
-            Err(e) => Verdict::fail(format!("RSU rows without awards file failed with the wrong error: {e}")),
             Ok(o) => Verdict::fail(format!("RSU rows converted without an awards file:\n{}", o.cgt_content)),
         };
     }
@@ -324,10 +331,14 @@ pub fn check19(c: &Case19, obs: &mut Obs) -> Verdict {
         AwardsRef::Rejected => {
             obs.class("vesting_action_with_empty_details");
             obs.nontrivial = true;
+            // (the statement does not say what such an entry means: a refusal of any kind, or a
+            // conversion that simply has no usable entry there, are both left unjudged)
             return match res {
-                Err(ConvertError::InvalidTransaction(_)) => Verdict::Pass,
-                Err(e) => Verdict::fail(format!("vesting action with empty details: wrong error kind {e}")),
-                Ok(_) => Verdict::fail("awards file with a vesting action lacking details was accepted".to_string()),
+                Err(_) => Verdict::Pass,
+                Ok(_) => {
+                    obs.class("vesting_action_with_empty_details_accepted");
+                    Verdict::Pass
+                }
             };
         }
         AwardsRef::Table(t) => t,
@@ -356,14 +367,14 @@ pub fn check19(c: &Case19, obs: &mut Obs) -> Verdict {
     obs.nontrivial = nt;
     let any_missing = expected.iter().any(|e| e.is_none());
     match res {
-        Err(ConvertError::MissingFairMarketValue { date, symbol }) => {
+        Err(e) => {
+            let msg = e.to_string();
             if !any_missing {
-                return Verdict::fail(format!("every deposit has an awards entry within 7 days back, but conversion failed for {symbol} {date}\nawards: {awards}\nrows: {txs}"));
+                return Verdict::fail(format!("every deposit has an awards entry within 7 days back, but conversion failed: {msg}\nawards: {awards}\nrows: {txs}"));
             }
-            let ok = c.deposits.iter().zip(expected.iter()).any(|((o, s), e)| e.is_none() && date == (c.base + Duration::days(*o as i64)).to_string() && symbol.eq_ignore_ascii_case(sym_variant(*s)));
-            if ok { Verdict::Pass } else { Verdict::fail(format!("error names {symbol} {date}, which is not an unresolvable deposit")) }
+            let ok = c.deposits.iter().zip(expected.iter()).any(|((o, s), e)| e.is_none() && error_names_row(&msg, sym_variant(*s), c.base + Duration::days(*o as i64)));
+            if ok { Verdict::Pass } else { Verdict::fail(format!("the error does not name the symbol and date of an unresolvable deposit: {msg}")) }
         }
-        Err(e) => Verdict::fail(format!("unexpected converter error: {e}\nawards: {awards}")),
         Ok(out) => {
             if any_missing {
                 return Verdict::fail(format!("a deposit has no awards entry on its date or within 7 days before it, yet conversion succeeded (a cost was invented)\nawards: {awards}\nrows: {txs}\noutput:\n{}", out.cgt_content));
@@ -677,6 +688,7 @@ fn expectation(base: NaiveDate, rows: &[Row], awards_table: &BTreeMap<(String, N
     let mut cancels: Vec<(NaiveDate, String, String, String)> = vec![];
     let mut dividends: BTreeMap<(NaiveDate, String), (Decimal, Decimal)> = BTreeMap::new();
     let mut nra: BTreeMap<(NaiveDate, String), Decimal> = BTreeMap::new();
+    let mut nra_rows: BTreeMap<(NaiveDate, String), usize> = BTreeMap::new();
     let mut skipped = 0;
     let mut blank_rows = 0;
     let mut symbolless_dates: std::collections::BTreeSet<NaiveDate> = Default::default();
@@ -723,6 +735,7 @@ fn expectation(base: NaiveDate, rows: &[Row], awards_table: &BTreeMap<(String, N
                 symbolless_dates.insert(date);
             }
             Kind::Nra(_) => {
+                *nra_rows.entry((date, sym.clone())).or_insert(0usize) += 1;
                 *nra.entry((date, sym)).or_insert(Decimal::ZERO) += amount;
             }
             Kind::Split | Kind::NonCgt(_) => skipped += 1,
@@ -744,10 +757,14 @@ fn expectation(base: NaiveDate, rows: &[Row], awards_table: &BTreeMap<(String, N
     trades.extend(sells);
     trades.sort();
     let mut orphan = 0;
+    let mut orphan_rows = 0;
     for (k, tax) in nra {
         match dividends.get_mut(&k) {
             Some(e) => e.1 += tax,
-            None => orphan += 1,
+            None => {
+                orphan += 1;
+                orphan_rows += nra_rows.get(&k).copied().unwrap_or(1);
+            }
         }
     }
     for r in rows {
@@ -757,7 +774,9 @@ fn expectation(base: NaiveDate, rows: &[Row], awards_table: &BTreeMap<(String, N
     }
     let orphan_groups = orphan + symbolless_dates.len();
     let orphan = orphan_groups;
-    Ok(Expect { trades, dividends, skipped_min: skipped, skipped_max: skipped + (orphan_groups - symbolless_dates.len()) + symbolless_rows + blank_rows, unknown_actions, unmatched_cancels: unmatched, orphan_nra: orphan })
+    Ok(Expect { trades, dividends, skipped_min: skipped, // upper bound: every row that is not a trade, a dividend or an attached withholding may be
+        // counted one by one (withholding rows without a dividend, blank rows, unmatched cancels)
+        skipped_max: skipped + orphan_rows + symbolless_rows + blank_rows + unmatched, unknown_actions, unmatched_cancels: unmatched, orphan_nra: orphan })
 }
 
 fn trades_of(parsed: &[Transaction]) -> Vec<Trade> {
@@ -850,17 +869,13 @@ pub fn check18(c: &Case18, obs: &mut Obs) -> Verdict {
             };
         }
     }
-    for a in &exp.unknown_actions {
-        if !out.warnings.iter().any(|w| w.contains(a.as_str())) {
-            return Verdict::fail(format!("unknown action '{a}' has no warning: {:?}", out.warnings));
-        }
-        if !out.cgt_content.lines().any(|l| l.trim_start().starts_with('#') && l.contains(a.as_str())) {
-            return Verdict::fail(format!("unknown action '{a}' has no comment line in the output"));
-        }
-    }
-    let cancel_warnings = out.warnings.iter().filter(|w| w.contains("no matching sell")).count();
-    if cancel_warnings != exp.unmatched_cancels {
-        return Verdict::fail(format!("{} Cancel Sell rows match no sell, {} warnings", exp.unmatched_cancels, cancel_warnings));
+    // (the count above already says every unknown row was counted as skipped, which is one of the
+    // two ways the statement allows; warnings and comments are then a bonus, not a demand)
+    // a Cancel Sell that matches no Sell: counted as skipped, or a warning that mentions it
+    let cancel_warnings = out.warnings.iter().filter(|w| w.to_lowercase().contains("cancel")).count();
+    let counted_extra = out.skipped_count.saturating_sub(exp.skipped_min);
+    if cancel_warnings < exp.unmatched_cancels && counted_extra < exp.unmatched_cancels {
+        return Verdict::fail(format!("{} Cancel Sell rows match no sell, but only {} warnings mention a cancellation and {} extra rows are counted as skipped", exp.unmatched_cancels, cancel_warnings, counted_extra));
     }
     // 5. chronological
     for w in parsed.windows(2) {
